@@ -7,6 +7,7 @@ import (
 	"encoding/json"
 	"fmt"
 	"io"
+	"log/slog"
 	"path"
 	"sort"
 	"strings"
@@ -423,6 +424,7 @@ func accountsBlob(files map[string][]byte, digest string) []byte {
 }
 
 func accountsRunE2E(c accountsCase) []Step {
+	slog.SetDefault(slog.New(slog.NewTextHandler(io.Discard, nil))) // the build logs through the default logger
 	repo := BuildSynthRepo(c.Pkgs, []string{"x86_64"})
 	ic := accountsIC(c)
 	ic.Contents.Packages = []string{c.Pkgs[0].Name}
